@@ -217,9 +217,47 @@ struct Runner {
 	}
 };
 
+// literal stream: parseBitVector on generated literals (mostly valid; some malformed / too narrow), then formatting of the result
+static void literalCase(uint64_t k, Rng &rng, std::ostream &o) {
+	static const char *hexd = "0123456789abcdefABCDEFxX", *octd = "01234567xX", *bind = "01xX", *decd = "0123456789";
+	std::string lit;
+	unsigned kind = (unsigned) rng.below(20);
+	size_t nd = rng.chance(1, 8) ? 0 : (rng.chance(1, 6) ? 20 + rng.below(30) : 1 + rng.below(12));
+	std::string digits; size_t bps = 1;
+	char letter = 'b';
+	if (kind < 6) { letter = 'x'; bps = 4; for (size_t i = 0; i < nd; i++) digits.push_back(hexd[rng.chance(1, 6) ? 22 + rng.below(2) : rng.below(22)]); }
+	else if (kind < 10) { letter = 'o'; bps = 3; for (size_t i = 0; i < nd; i++) digits.push_back(octd[rng.chance(1, 6) ? 8 + rng.below(2) : rng.below(8)]); }
+	else if (kind < 14) { letter = 'b'; bps = 1; for (size_t i = 0; i < nd; i++) digits.push_back(bind[rng.chance(1, 6) ? 2 + rng.below(2) : rng.below(2)]); }
+	else if (kind < 17) { letter = 'd'; bps = 0; size_t n = rng.chance(1, 5) ? 19 + rng.below(3) : rng.below(12); for (size_t i = 0; i < n; i++) digits.push_back(decd[rng.below(10)]); if (rng.chance(1, 10)) digits = "18446744073709551615"; }
+	else if (kind < 19) { letter = 's'; bps = 8; size_t n = rng.below(12); for (size_t i = 0; i < n; i++) digits.push_back((char) (33 + rng.below(90))); }
+	else { letter = "qzg#"[rng.below(4)]; digits = "01"; }
+	if (rng.chance(1, 12)) digits.push_back("gh!8"[rng.below(4)]); // trailing garbage (valid for some kinds)
+	size_t natural = bps ? digits.size() * bps : 64;
+	switch (rng.below(5)) { case 0: break; case 1: lit = std::to_string(natural); break; case 2: lit = std::to_string(natural + 1 + rng.below(70)); break;
+		case 3: lit = natural ? std::to_string(rng.below(natural)) : "0"; break; default: lit = std::to_string(rng.below(130)); break; }
+	lit.push_back(letter); lit += digits;
+	o << "case " << k << " L\n" << "lit " << lit << '\n';
+	try {
+		DefaultBitVectorState v = parseBitVector(lit);
+		o << "-> ok\n= 0 " << v.size();
+		for (size_t p = 0; p < 2; p++) { o << ' '; if (v.getNumBlocks() == 0) o << '-'; for (size_t i = 0; i < v.getNumBlocks(); i++) { if (i) o << ','; o << vh::hex64(v.data((DefaultConfig::Plane) p)[i]); } }
+		o << '\n';
+		std::ostringstream b, h; b << v; h << std::hex << v;
+		o << "bin " << (b.str().empty() ? "-" : b.str()) << '\n' << "hex " << (h.str().empty() ? "-" : h.str()) << '\n';
+	} catch (const gtry::utils::DesignError &) { o << "-> e:design\n"; }
+	  catch (const gtry::utils::InternalError &) { o << "-> e:internal\n"; }
+	o << "end\n";
+}
+
 int main(int argc, char **argv) {
 	uint64_t seed = vh::argU64(argc, argv, 1, 1), ncases = vh::argU64(argc, argv, 2, 100), nops = vh::argU64(argc, argv, 3, 50);
 	std::ios::sync_with_stdio(false);
+	if (nops == 0) { // literal mode
+		Rng top(seed * 0x100000001b3ull + 1818);
+		std::cout << "# prop=C18 literals seed=" << seed << " cases=" << ncases << "\n";
+		for (uint64_t k = 0; k < ncases; k++) { Rng rng = top.fork(); literalCase(k, rng, std::cout); }
+		return 0;
+	}
 	Rng top(seed * 0x100000001b3ull + 18);
 	std::cout << "# prop=C18 seed=" << seed << " cases=" << ncases << " ops=" << nops << "\n";
 	for (uint64_t k = 0; k < ncases; k++) {
